@@ -13,6 +13,64 @@ def atoms(run):
     return t, s
 
 
+def losses_positions_rule(ctx, index, entry):
+    """R6: one task per POSITION of `losses`. The same loss tensor may be listed twice (two rows); turning the losses into dictionary
+    keys or set elements merges those positions (tensors hash by identity), so rows — and the parameters of the merged tasks — are lost."""
+    import ast
+
+    from ..report import norm_text
+
+    ctx.rule("R6", "row i belongs to losses[i] for every position i: the losses are never used as dictionary keys or set elements on the way to the per-task transforms "
+                   "(a loss listed twice must give two rows)")
+    fn = entry.node
+    lname = next((a.arg for a in fn.args.args if a.arg == "losses"), None)
+    if lname is None:
+        ctx.undecided("R6", "mtl_backward: positions of the losses", "no parameter named `losses`", entry.loc())
+        return
+    # names holding the losses or their elements (aliases, loop variables over them)
+    holds = {lname}
+    elems = set()
+    changed = True
+    while changed:
+        changed = False
+        for n in ast.walk(fn):
+            if isinstance(n, ast.Assign) and len(n.targets) == 1 and isinstance(n.targets[0], ast.Name) and isinstance(n.value, (ast.Name, ast.Call)):
+                src = n.value if isinstance(n.value, ast.Name) else (n.value.args[0] if (norm_text(n.value.func) in ("list", "tuple") and n.value.args and isinstance(n.value.args[0], ast.Name)) else None)
+                if isinstance(src, ast.Name) and src.id in holds and n.targets[0].id not in holds:
+                    holds.add(n.targets[0].id)
+                    changed = True
+            gens = n.generators if isinstance(n, (ast.ListComp, ast.SetComp, ast.DictComp, ast.GeneratorExp)) else ([n] if isinstance(n, ast.For) else [])
+            for g in gens:
+                it, tg = g.iter, g.target
+                if isinstance(it, ast.Name) and it.id in holds and isinstance(tg, ast.Name) and tg.id not in elems:
+                    elems.add(tg.id)
+                    changed = True
+                if isinstance(it, ast.Call) and norm_text(it.func) in ("zip", "enumerate") and isinstance(tg, ast.Tuple):
+                    args = it.args if norm_text(it.func) == "zip" else [None] + list(it.args[:1])
+                    for a_, t_ in zip(args, tg.elts):
+                        if isinstance(a_, ast.Name) and a_.id in holds and isinstance(t_, ast.Name) and t_.id not in elems:
+                            elems.add(t_.id)
+                            changed = True
+    bad = None
+    for n in ast.walk(fn):
+        if isinstance(n, ast.Call):
+            f = norm_text(n.func)
+            if f in ("dict", "OrderedDict", "collections.OrderedDict") and n.args and isinstance(n.args[0], ast.Call) and norm_text(n.args[0].func) == "zip" and n.args[0].args \
+                    and isinstance(n.args[0].args[0], ast.Name) and n.args[0].args[0].id in holds:
+                bad = n
+            if f in ("set", "frozenset", "dict.fromkeys", "OrderedDict.fromkeys", "collections.OrderedDict.fromkeys") and n.args and isinstance(n.args[0], ast.Name) and n.args[0].id in holds:
+                bad = n
+        if isinstance(n, ast.DictComp) and isinstance(n.key, ast.Name) and n.key.id in elems:
+            bad = n
+        if isinstance(n, ast.SetComp) and isinstance(n.elt, ast.Name) and n.elt.id in elems:
+            bad = n
+        if isinstance(n, ast.Assign) and isinstance(n.targets[0], ast.Subscript) and isinstance(n.targets[0].slice, ast.Name) and n.targets[0].slice.id in elems:
+            bad = n
+    ctx.require(bad is None, "R6", "mtl_backward: one task per position of `losses`", "the losses are walked as a sequence (zip / enumerate / index), never keyed",
+                f"`{norm_text(bad)[:90] if bad is not None else ''}` makes the losses dictionary keys / set elements: a loss tensor listed at two positions yields one entry, so a row of the "
+                "feature-level Jacobian and the parameters of one of the two tasks are silently dropped", entry.loc(bad) if bad is not None else entry.loc())
+
+
 def check(index, ctx):
     ctx.rule("R1", "on every non-empty returning path: each task differentiates exactly its own loss w.r.t. its own parameters + the features and accumulates only its own parameters; "
              "the per-task feature gradients are stacked along dim 0 in the order of `losses`; the shared Jacobian differentiates exactly the features w.r.t. exactly the shared parameters; "
@@ -115,6 +173,7 @@ def check(index, ctx):
 
     partition_rule(ctx, P, rs, "R2")
     single_pass_rule(ctx, index, "R5", entry)
+    losses_positions_rule(ctx, index, entry)
     ctx.floor("non-empty returning paths of mtl_backward", n_main, 5)
     _pipe.common_evidence(ctx, index, ("mtl_backward",))
     ctx.assumptions.append("numerical values of gradients/Jacobians are NOT decided; accumulation semantics is decided under C06")
